@@ -1141,6 +1141,30 @@ func genC02(r *simrt.Rand, tier string, idx uint64) Workload {
 		}
 		w.Tasks = append(w.Tasks, calls)
 	}
+	if (ad.name == "cache" || ad.name == "trie" || ad.name == "bstree") && r.Intn(4) == 0 {
+		// hot key: every call of the program names the same key (a defect that needs three calls to
+		// meet on one key - `s-c02-n`: two Deletes and an Update - is otherwise a matter of the keys
+		// happening to coincide)
+		hot, found := 0, false
+		for ti := range w.Tasks {
+			for ci := range w.Tasks[ti] {
+				c := &w.Tasks[ti][ci]
+				var d *opDesc
+				for i := range ad.ops {
+					if ad.ops[i].name == c.Op {
+						d = &ad.ops[i]
+					}
+				}
+				if d == nil || d.nargs < 1 || d.aRange > 0 {
+					continue
+				}
+				if !found {
+					hot, found = c.A, true
+				}
+				c.A = hot
+			}
+		}
+	}
 	if timedCfg(w.Type, w.Cfg) {
 		insertTicks(r, w, 1+r.Intn(2))
 	}
